@@ -2,6 +2,7 @@
 package analyzer
 
 import (
+	"github.com/go-critic/go-critic/checkers"
 	"github.com/go-critic/go-critic/linter"
 
 	"golang.org/x/tools/go/analysis"
@@ -34,7 +35,16 @@ var (
 	stringParams = make(map[string]*string)
 )
 
-var registeredCheckers = linter.GetCheckersInfo()
+var registeredCheckers = collectCheckersInfo()
+
+// collectCheckersInfo returns all checkers the go-critic command offers:
+// the rule-based checkers are registered on request, not by a package init.
+func collectCheckersInfo() []*linter.CheckerInfo {
+	if err := checkers.InitEmbeddedRules(); err != nil {
+		panic(err)
+	}
+	return linter.GetCheckersInfo()
+}
 
 func init() {
 	Analyzer.Flags.BoolVar(&flagDebugInit, "debug-init", false,
